@@ -74,3 +74,25 @@ func TestVerifBoundedArtifactBytes(t *testing.T) {
 	}
 	fmt.Printf("VERIF-BOUNDED: ok cases=%d\n", n)
 }
+
+// TestVerifBoundedArtifactName: the artifact of a configuration file is the same path with its last suffix replaced by
+// ".pem" (C10, C18), for names with several dots, dotted directories and all three suffixes in either case.
+func TestVerifBoundedArtifactName(t *testing.T) {
+	n := 0
+	dirs := []string{"", "a/", "pki.d/", "x/y.z/", "./"}
+	bases := []string{"root", "ca", "alma", "tls", "server.prod", "a.b.c", "yaml", "c"}
+	exts := []string{".yaml", ".yml", ".json", ".YAML", ".Yml"}
+	for _, d := range dirs {
+		for _, b := range bases {
+			for _, e := range exts {
+				n++
+				m := fsMetadata{configFileName: d + b + e}
+				if got, want := m.artifactFileName(), d+b+".pem"; got != want {
+					fmt.Printf("VERIF-BOUNDED: violation artifact of %q is %q, expected %q\n", m.configFileName, got, want)
+					return
+				}
+			}
+		}
+	}
+	fmt.Printf("VERIF-BOUNDED: ok cases=%d\n", n)
+}
